@@ -101,11 +101,15 @@ def run(ck):
     if crashed: continue
     # the same inputs driven with sim_tick() alone (poke inputs, tick, read — no explicit combinational evaluation first):
     # the edge must still see F(pre-edge state, inputs of THIS cycle), whatever the pass group's tick is assembled from
-    for flow in rng.sample(['default', 'simple', 'heutopo', 'mamba', 'unroll'], 2):
+    for nflow, flow in enumerate(rng.sample(['default', 'simple', 'heutopo', 'mamba', 'unroll'], 2)):
       try:
         rs = rtlgen.RealSim(cls, d, flow)
         got = []
-        for ins in cycles:
+        for kc, ins in enumerate(cycles):
+          if nflow == 1:
+            # evaluate with OTHER inputs first, then poke the inputs of this cycle and tick without evaluating again (a test
+            # bench that looks at the outputs and then decides its inputs): the edge must see the inputs on the ports
+            rs.set_inputs(cycles[(kc + 1) % len(cycles)]); rs.top.sim_eval_combinational()
           rs.set_inputs(ins); rs.top.sim_tick(); got.append(rs.read_all())
       except leanio.MachineryError: raise
       except Exception as e:
